@@ -149,27 +149,42 @@ def join_cases(ctx, fam, thorough, open_devs):
             sc = {e[0]: e for e in i["script"]}
             i["script"] = None
             return json.dumps(i, sort_keys=True), sc
+        # ideal behaviours per configuration and set of asked candidates
         groups = {}
         for key, exp in ideal.items():
             g, sc = split(key)
-            groups.setdefault(g, []).append((sc, exp))
+            groups.setdefault(g, {}).setdefault(frozenset(sc), []).append((sc, exp))
+        index = {}      # (configuration, asked by ideal, common candidates) -> projection -> behaviour
+
+        def lookup(g, ics, common, sc):
+            k = (g, ics, common)
+            if k not in index:
+                d = {}
+                for isc, iexp in groups[g][ics]:
+                    d.setdefault(json.dumps([isc[c] for c in sorted(common)]), (isc, iexp))
+                index[k] = d
+            return index[k].get(json.dumps([sc[c] for c in sorted(common)]))
+
         for key in sorted(todays):
             g, sc = split(key)
             n = 0
-            for isc, iexp in groups.get(g, []):
-                if all(isc[c] == sc[c] for c in isc if c in sc):
-                    world = dict(isc)
-                    world.update(sc)
-                    i = json.loads(key)
-                    i["script"] = [world[c] for c in sorted(world)]
-                    c = {"in": i, "exp": iexp}
-                    if todays[key] != iexp:
-                        c["dev"] = {dname: todays[key]}
-                        ndev += 1
-                    cases.append(c)
-                    n += 1
-                    if n >= 2:
-                        break
+            for ics in sorted(groups.get(g, {}), key=sorted):
+                hit = lookup(g, ics, frozenset(ics & set(sc)), sc)
+                if hit is None:
+                    continue
+                isc, iexp = hit
+                world = dict(isc)
+                world.update(sc)
+                i = json.loads(key)
+                i["script"] = [world[c] for c in sorted(world)]
+                c = {"in": i, "exp": iexp}
+                if todays[key] != iexp:
+                    c["dev"] = {dname: todays[key]}
+                    ndev += 1
+                cases.append(c)
+                n += 1
+                if n >= 2:
+                    break
             if n == 0:
                 skipped += 1
     else:
